@@ -25,11 +25,3 @@ Definition z_ktrace_eqb := ktrace_eqb Z Z Z.eqb Z.eqb.
 (* Bus._store_reader called directly with a recording stub store: the read_many / read calls *)
 Definition z_reader_batches (mp : option Z) (ls : list Z) : list (list Z) := reader_batches Z mp ls.
 Definition z_batches_eqb := list_eqb (list_eqb Z.eqb).
-
-(* the side condition mode_ok of the refinement theorem, decided: one configuration for all labels, or max_persist <> 1 *)
-Definition z_mode_ok (content : list (Z * (Z * Z))) (mp : option Z) : bool :=
-  match reader_mode mp with
-  | CfgLabel => true
-  | CfgDefault => forallb (fun e => fst (snd e) =? snd (snd e)) content
-  end.
-Definition z_in_domain content t0 mp tbl ops : bool := z_dom content t0 mp tbl ops && z_mode_ok content mp.
